@@ -23,6 +23,7 @@ import (
 func main() {
 	harness.Main("C04", "exploration",
 		harness.Layer{Name: "mem", Run: func(h *harness.H) { run(h, "mem", h.N(400, 20000)) }},
+		harness.Layer{Name: "rewrite", Run: func(h *harness.H) { run(h, "rewrite", h.N(300, 15000)) }},
 	)
 }
 
@@ -33,6 +34,9 @@ type witness struct {
 }
 
 func run(h *harness.H, layer string, n int) {
+	if layer == "rewrite" {
+		h.AddRule("rewrite: the same generator biased towards delete -> write the same stretch again -> delete again: one group, 1-2 data channels (string/json/bytes/int64/uint8), file sizes 64 B..1 GiB, half of the deletes remove exactly what one session committed, every freed stretch is refilled with the very same timestamps (new values of other lengths), usually extended by 1-4 earlier stamps that a later delete cuts off again, earlier delete boundaries are re-used, deletes after every session; same oracle")
+	}
 	h.AddRule(layer + ": cskit.Gen scripts with Deletes+GC+GapRewrite (delete ranges with ends on samples, +-1ns, between samples, +-1000ns, far outside; data-only, index-only and index+all-data requests; 1-3 deletes between sessions; gc passes with thresholds 1e-9..1; rewrite sessions into freed gaps and data-only rewrites into freed positions; reopen); non-trivial = at least one delete removed >=1 model sample and >=1 read compared afterwards; distinct by script shape")
 	h.Assume("delete requests are restricted to the shapes whose outcome the statement determines: data channels only, an index channel alone, or an index channel together with all of its data channels")
 	h.Assume("GC invoked through the verif-tagged synchronous pass-through to the existing private garbageCollect")
@@ -61,6 +65,14 @@ func one(h *harness.H, layer string, c int) {
 	o := cskit.DefaultGen()
 	o.Deletes, o.GC, o.GapRewrite = true, true, true
 	o.MaxSessions = 7
+	if layer == "rewrite" {
+		// delete -> refill the same stretch -> delete again, mostly on one group with
+		// variable-length channels and files large enough to keep a session in one domain
+		o.Rewrite = true
+		o.MaxGroups, o.MaxData, o.MaxSessions = 1, 2, 6
+		o.Types = []string{"string", "json", "bytes", "int64", "uint8", "string"}
+		o.FileSizes = []int64{64, 1000, 1 << 30, 1 << 30}
+	}
 	// exploration knobs (never set by the registered commands)
 	for _, k := range strings.Split(os.Getenv("VERIF_C04_OPTS"), ",") {
 		switch k {
@@ -85,6 +97,9 @@ func one(h *harness.H, layer string, c int) {
 		}
 	}
 	s := cskit.Gen(r, o)
+	h.Count("whole_session_deletes", s.WholeSessionDeletes)
+	h.Count("replay_rewrites_of_a_freed_range", s.ReplayRewrites)
+	h.Count("head_cuts_of_a_replayed_session", s.HeadCuts)
 	rfs, _ := recfs.New(xfs.NewMem())
 	e := cskit.NewExec(rfs, s)
 	e.CheckGC = true
